@@ -271,12 +271,34 @@ def shrink(ctx, req, still_fails, budget=40):
     return cur
 
 
+def series_stalls(mp, increasing):
+    """the generated level series cannot advance from its start value in binary64 (r + c == r): it ends there by design of the code
+    (in exact arithmetic it would have ~1/c levels, far beyond any resource). The series checkers state the documented rule and are not
+    applied to such a request; the correspondence with the binary64 model still is."""
+    if not isinstance(mp, dict) or not isinstance(mp.get('params'), dict) or mp.get('function') in (None, 'thresholds'):
+        return False
+    p = mp['params']
+    try:
+        c, mn, mx = float(p.get('coefficient', 0)), float(p.get('minValue', 0)), float(p.get('maxValue', 0))
+    except (TypeError, ValueError):
+        return False
+    mul = mp.get('function') == 'idealMultipliedCoefficient'
+    if increasing:
+        r = mn
+        nxt = min((1 + r) * (1 + c) - 1, 1) if mul else min(r + c, 1)
+        return nxt == r and r < mx
+    r = mx
+    nxt = r * c if mul else max(r - c, 0)
+    return nxt == r and r > mn
+
+
 COL_TEXT = {'coherent': 'the method is evaluated on incoherent data: a criterion the alternatives carry has no entry in the method parameters '
                         '(or an alternative lacks a value), so what is reported is not the aggregate over the criteria the alternative is evaluated on'}
 
 
 def method_check(ctx, col, gens, n_quick, n_thorough, rule, agree_col='agree', agree_scope=None,
-                 finding_facts=None, code2_finding=None, excuse=None, search_gens=None, also_cols=(), extra_corr=None, spec_determines=None):
+                 finding_facts=None, code2_finding=None, excuse=None, search_gens=None, also_cols=(), extra_corr=None, spec_determines=None,
+                 skip_checker=None):
     """gens: list of (weight, generator(rnd) -> request). col: checker column name.
     agree_col: which correspondence column ties the model to the code for this property."""
     pid = ctx.pid
@@ -308,7 +330,9 @@ def method_check(ctx, col, gens, n_quick, n_thorough, rule, agree_col='agree', a
         facts = {'method': req.get('preferenceFunction')}
         if finding_facts:
             facts.update(finding_facts(req, res))
-        if v[ci] == 2 and code2_finding:
+        if skip_checker and skip_checker(req):
+            ctx.count('checker not applied (level series cannot advance in binary64)')
+        elif v[ci] == 2 and code2_finding:
             ctx.violation(code2_finding, {'request': req, 'response': res.get('resp')}, dict(facts, code=2))
         elif v[ci] != 0:
             def still(c, ci=ci):
@@ -322,6 +346,8 @@ def method_check(ctx, col, gens, n_quick, n_thorough, rule, agree_col='agree', a
                           {'request': small, 'original_request': req, 'response': r3.get('resp') or r3.get('err'),
                            'final_state': r3.get('evalInput'), 'checker': 'Check/%s.v' % col[:3]}, facts)
         for ec in also_cols:
+            if skip_checker and skip_checker(req) and ec != 'coherent':
+                continue
             if len(v) > COL[ec] and v[COL[ec]] != 0:
                 ctx.violation(COL_TEXT.get(ec) or 'checker %s rejects what the implementation returned' % ec,
                               {'request': req, 'response': res.get('resp'), 'final_state': res.get('evalInput'), 'checker': ec}, facts)
@@ -411,6 +437,7 @@ def c01(ctx):
     return method_check(
         ctx, 'C01', ALL_GENS + [(2, gen_method('majorityHeuristic')), (2, gen_method('aspectEliminationHeuristic')), (2, gen_method('satisfactionHeuristic')),
                                 (4, gen_biased()), (1, no_criteria_left), (0.15, lambda rnd: gen.many_alternatives_request(rnd)),
+                                (0.15, lambda rnd: gen.add_biases(rnd, gen.many_alternatives_request(rnd), prob_mix=False)),
                                 (2, lambda rnd: gen.biased_request(rnd, method=rnd.choice(gen.HEURISTICS), prob_mix=False))], 450, 8000,
         'random valid requests over the seven methods (the three heuristics over-weighted: tie groups under every draw policy), currentChoice '
         'absent / considered / known-only, shuffled orders; half of the requests carry bias sequences of length 1-4 over the six biases; '
@@ -644,9 +671,29 @@ def c13(ctx):
         req['methodParameters']['function'] = 'thresholds'
         req['methodParameters']['params'] = {'thresholds': [{k: rnd.choice([2.0, 5.0, 8.0]) for k in cids}, {k: 1.0 for k in cids}]}
         return req
+    def beyond_declared_range(rnd):
+        """explicit thresholds and values that lie beyond a criterion's declared range (declared ranges are taken as given, never checked
+        against the values): a level is met or failed by the values, whatever the declared range says"""
+        req = gen.heuristic_request(rnd, 'satisfactionHeuristic', n_alts=rnd.choice([3, 4, 5]), n_crits=rnd.choice([1, 2, 2]))
+        for c in req['criteria']:
+            vals = sorted(a['criteria'][c['id']] for a in req['knownAlternatives'])
+            lo, hi = vals[0], vals[-1]
+            mid = vals[len(vals) // 2]
+            c['valuesRange'] = rnd.choice([{'min': lo - 1.0, 'max': mid if mid > lo - 1.0 else lo}, {'min': mid if mid < hi + 1.0 else hi, 'max': hi + 1.0},
+                                           {'min': lo - 1.0, 'max': hi + 1.0}])
+            if c['valuesRange']['min'] >= c['valuesRange']['max']:
+                c['valuesRange'] = {'min': lo - 1.0, 'max': hi + 1.0}
+        ths = []
+        for k in range(rnd.choice([2, 3])):
+            ths.append({c['id']: rnd.choice(sorted(a['criteria'][c['id']] for a in req['knownAlternatives'])) for c in req['criteria']})
+        req['methodParameters']['function'] = 'thresholds'
+        req['methodParameters']['params'] = {'thresholds': ths}
+        if rnd.random() < 0.4:
+            req = gen.add_biases(rnd, req, names=[rnd.choice(['fatigue', 'criteriaConcealment'])], prob_mix=False)
+        return req
     return method_check(
         ctx, 'C13', [(2, gen_method('satisfactionHeuristic')), (1, (lambda rnd: gen.biased_request(rnd, method='satisfactionHeuristic', prob_mix=False))),
-                     (0.3, many_at_one_level)], 300, 6000,
+                     (0.3, many_at_one_level), (0.5, beyond_declared_range)], 300, 6000,
         'random satisfaction requests: currentChoice absent / considered / known-only, explicit thresholds and both generated series, '
         'levels nobody meets, cost criteria, shuffled order, now and then 13-22 alternatives', agree_col='agree', also_cols=('C13order',),
         spec_determines='Properties/C13.v: satisfaction_spec_complete - the specification determines the ranking uniquely')
@@ -1052,6 +1099,37 @@ def c07(ctx):
             b['props']['newCriterionImportance'] = 0.0
         req['biases'][1]['props'] = {'ratio': 0.0, 'min': 1, 'max': 1, 'ordering': 'weakest'}
         return req
+    def related_ids(rnd):
+        """criterion ids that are prefixes / suffixes of one another and sort next to each other ('1', '21', '3'; 'c', 'cc'): parameters keyed
+        by joined ids (Choquet over-weighted) under omission and the criterion-adding biases"""
+        m = rnd.choice(['choquetIntegral', 'choquetIntegral', 'choquetIntegral', 'weightedSum', 'electreIII', 'majorityHeuristic'])
+        req = gen.any_request(rnd, m)
+        k = len(req['criteria'])
+        pool = rnd.choice([['1', '21', '3', '13'], ['1', '11', '111', '2'], ['c', 'cc', 'ccc', 'd'], ['x', 'xx', 'xxx', 'y'], ['x', '1x', 'x1', 'y']])
+        ids = rnd.sample(pool, min(k, len(pool)))
+        if len(ids) >= 3 and pool[-1] not in ids:
+            ids[-1] = pool[-1]   # an id that sorts after the related ones
+        ren = {c['id']: ids[i] for i, c in enumerate(req['criteria'][:len(ids)])}
+        req = json.loads(json.dumps(req))
+        def rn(key):
+            return ','.join(ren.get(x, x) for x in key.split(','))
+        for c in req['criteria']:
+            c['id'] = ren.get(c['id'], c['id'])
+        for a in req['knownAlternatives']:
+            a['criteria'] = {ren.get(x, x): v for x, v in a['criteria'].items()}
+        mp = req['methodParameters']
+        for fld in ('weights', 'electreCriteria'):
+            if isinstance(mp.get(fld), dict):
+                mp[fld] = {rn(x): v for x, v in mp[fld].items()}
+        names = [rnd.choice(['criteriaOmission', 'criteriaOmission', 'criteriaConcealment', 'criteriaMixing']) for _ in range(rnd.choice([1, 2, 3]))]
+        req = gen.add_biases(rnd, req, names=names, prob_mix=False, disabled_prob=0.0)
+        for b in req['biases']:
+            if b['name'] == 'criteriaOmission':
+                b['props'].update(ratio=rnd.choice([0.34, 0.5]), ordering=rnd.choice(['weakest', 'strongest', 'random']), randomSeed=gen.some_seed(rnd))
+                b['props'].pop('min', None)
+                b['props']['max'] = max(1, k - 1)
+        return req
+    gens = gens + [(1.5, related_ids)]
     infos, verd, reqs, ress = stage_check(ctx, None, None, gens + [(1, adders_then), (0.5, add_omit_add)], 400, 8000, '', extra=c07_extra,
                                           search_gens=[(1, adders_then), (1, add_omit_add)], failure_is_violation=True)
     # the same combination once more in the same process: still a ranking (Choquet with a criterion-adding bias over-weighted)
@@ -1322,8 +1400,29 @@ def c15(ctx):
     def first_omission(rnd):
         rest = [rnd.choice(gen.BIASES) for _ in range(rnd.choice([0, 0, 1]))]
         return gen.biased_request(rnd, names=['criteriaOmission'] + rest, prob_mix=False)
+    def values_changed_then_omit(rnd):
+        """biases that change values but neither criteria nor parameters (reversal - it ranks the criteria itself -, fatigue, inline
+        anchoring) before an omission ordered by importance: the importance is the one of the state the omission receives"""
+        pre = [rnd.choice(['preferenceReversal', 'preferenceReversal', 'fatigue', 'anchoring']) for _ in range(rnd.choice([1, 1, 2]))]
+        m = rnd.choice(gen.METHODS + ['choquetIntegral'] * 5 + ['weightedSum', 'owa'])
+        req = gen.biased_request(rnd, method=m, names=pre + ['criteriaOmission'], prob_mix=False)
+        for b in req['biases'][:-1]:
+            if b['name'] == 'anchoring':
+                b['props']['applier'] = {'function': 'inline', 'params': {}}
+            if b['name'] == 'preferenceReversal':
+                b['props']['ratio'] = rnd.choice([0.0, 0.5, 1.0])
+                b['props'].pop('max', None)
+                b['props'].pop('min', None)
+            if b['name'] == 'fatigue':
+                b['props'].update(function='const', params={'value': rnd.choice([0.5, 0.9, 1.0])})
+        b = req['biases'][-1]['props']
+        b['ordering'] = rnd.choice(['weakest', 'strongest', 'weakest'])
+        b['ratio'] = rnd.choice([0.34, 0.5])
+        b.pop('min', None)
+        b['max'] = max(1, len(req['criteria']) - 1)
+        return req
     infos, verd, reqs, ress = stage_check(ctx, 'C15', ['criteriaOmission'],
-                                          [(2, seq_with('criteriaOmission')), (2, first_omission)], 260, 5000, '',
+                                          [(2, seq_with('criteriaOmission')), (2, first_omission), (2.5, values_changed_then_omit)], 260, 5000, '',
                                           agree_names=['criteriaOmission'], search_gens=[(1, seq_with('criteriaOmission'))])
     # the decision equals the one for the request with the omitted criteria deleted
     done = 0
@@ -1458,8 +1557,33 @@ def c14(ctx):
                 p['coefficient'], p['minValue'], p['maxValue'] = 0.25, 0.25, rnd.choice([0.75, 1.0, 0.5])
             cases.append({'family': 'increasing' if inc else 'decreasing', 'function': fn, 'params': p, 'criteria': crits,
                           'considered': alts[:k], 'notConsidered': alts[k:], 'max': 5000})
+    # history elements: series whose coefficient lies below the float resolution of the start value (accepted; they cannot advance and
+    # end at once by design of the code - in exact arithmetic they would have ~1e17 levels, so neither the model nor the checker is
+    # applied to them); what they leave behind in the process-wide level sources must not change any later series
+    if not ctx.replay:
+        for k in range(max(2, len(cases) // 60)):
+            pos = rnd.randrange(0, max(1, len(cases) // 2))
+            base = cases[rnd.randrange(len(cases))]
+            if base['function'] == 'thresholds':
+                continue
+            st = json.loads(json.dumps(base))
+            st['params'] = {'coefficient': 1e-18, 'minValue': rnd.choice([0.125, 0.25, 0.5]), 'maxValue': rnd.choice([0.5, 0.75, 1.0])}
+            st['stall'] = True
+            cases.insert(pos, st)
     terms, keep = [], []
+    served_before = []
+    for h in (ctx.replay or {}).get('history_before') or []:
+        ctx.pipe.call({'op': 'levels', 'args': {k: v for k, v in h.items() if k != 'stall'}})
+        served_before.append(h)
     for c in cases:
+        if c.get('stall'):
+            served_before.append(c)
+            sres = ctx.pipe.call({'op': 'levels', 'args': {k: v for k, v in c.items() if k != 'stall'}})
+            ctx.count('levels/history element: series that cannot advance')
+            if not sres.get('ok') or (sres.get('result') or {}).get('truncated'):
+                ctx.violation('a level series whose coefficient is below the float resolution does not end', {'levels_case': c, 'answer': sres},
+                              {'function': c['function']})
+            continue
         res = ctx.pipe.call({'op': 'levels', 'args': c})
         if not res.get('ok'):
             ctx.violation('harness: levels op unavailable', {'broken': 'component overlay', 'answer': res}, found_input=False)
@@ -1494,9 +1618,11 @@ def c14(ctx):
         if v == [99]:
             ctx.violation('case file did not evaluate', {'broken': 'Run/cases_C14', 'log': logs[:1]}, found_input=False)
             break
-        if v[1] != 0:
+        if v[1] != 0 and series_stalls({'function': c['function'], 'params': c['params']}, c['family'] == 'increasing'):
+            ctx.count('levels/series cannot advance in binary64: checker not applied')
+        elif v[1] != 0:
             ctx.violation('generated aspiration levels do not follow the documented series', {'levels_case': c, 'result': r,
-                          'checker': 'Check/C14.v C14_ok'}, {'function': c['function']})
+                          'checker': 'Check/C14.v C14_ok', 'history_before': served_before}, {'function': c['function']})
         if v[0] == 1:
             ctx.violation('out-of-range level parameters are accepted', {'levels_case': c, 'result': r}, {'function': c['function']})
         elif v[0] != 0:
@@ -1515,12 +1641,23 @@ def c14(ctx):
             req['methodParameters']['function'], req['methodParameters']['params'] = fn, p
             return req
         hreqs = [ctx.replay['request']] if ctx.replay else [gen_levels(rnd) for _ in range(n_cases(ctx, 120, 2500))]
+        if not ctx.replay:
+            # the same history element end to end: a heuristic request whose series cannot advance, served (not judged) before the others
+            for m, fn in (('aspectEliminationHeuristic', 'idealAdditiveCoefficient'), ('satisfactionHeuristic', 'idealSubtractiveCoefficient'),
+                          ('aspectEliminationHeuristic', 'idealMultipliedCoefficient')):
+                sq = gen.heuristic_request(rnd, m, n_crits=2)
+                sq['methodParameters']['function'] = fn
+                sq['methodParameters']['params'] = {'coefficient': 1e-18, 'minValue': 0.25, 'maxValue': 0.75}
+                sr = ctx.pipe.call({'op': 'decide', 'req': sq}, timeout=60)
+                ctx.count('heuristic/history element: series that cannot advance')
+                if sr.get('kind') not in (None, 'panic', 'marshal') and not sr.get('ok'):
+                    ctx.violation('a heuristic request whose level series cannot advance is not answered', {'request': sq, 'answer': sr}, {'method': m})
         hres, hverd, hlogs = e2e.run_all(ctx.pipe, hreqs, 'C14h')
         for req, res, v in zip(hreqs, hres, hverd):
             ctx.evaluations += 1
             ctx.count('heuristic/' + req['preferenceFunction'])
             col = COL['C12'] if req['preferenceFunction'] == 'aspectEliminationHeuristic' else COL['C13']
-            if v and len(v) > col and v[col] != 0:
+            if v and len(v) > col and v[col] != 0 and not series_stalls(req.get('methodParameters'), req['preferenceFunction'] == 'aspectEliminationHeuristic'):
                 ctx.violation('the thresholds a heuristic reports are not the levels of the documented series for the criteria it names',
                               {'request': req, 'response': res.get('resp') or res.get('err'), 'checker': 'Check/C12.v / Check/C13.v on generated levels'},
                               {'method': req['preferenceFunction']})
@@ -1694,6 +1831,34 @@ def c02(ctx):
         './check C02')
 
 
+def defaults_request(rnd, first=None):
+    """a valid request that names none of its optional parameters: orderings, reference-criterion strategies, draw policy, distillation
+    function, bounding and seeds are the documented defaults; at least three criteria, biases that select by ordering over-weighted"""
+    names = [rnd.choice(['criteriaOmission', 'preferenceReversal', 'criteriaOmission', 'criteriaConcealment', 'criteriaMixing', 'fatigue'])
+             for _ in range(rnd.choice([1, 1, 2]))]
+    if first:
+        names[0] = first
+    m = rnd.choice(gen.METHODS)
+    if m in gen.UTILITY:
+        req = gen.utility_request(rnd, m, n_crits=rnd.choice([3, 4]))
+    elif m == 'electreIII':
+        req = gen.electre_request(rnd, n_crits=rnd.choice([3, 4]))
+    else:
+        req = gen.heuristic_request(rnd, m, n_crits=rnd.choice([3, 4]))
+    req = gen.add_biases(rnd, req, names=names, prob_mix=False, disabled_prob=0.0)
+    for b in req['biases']:
+        p = b['props']
+        for k in ('ordering', 'referenceCriterionType', 'randomSeed', 'newCriterionRandomSeed', 'newCriterionImportance',
+                  'allowedValuesRangeScaling', 'disallowNegativeValues', 'min', 'max'):
+            p.pop(k, None)
+        if b['name'] in ('criteriaOmission', 'preferenceReversal'):
+            p['ratio'] = rnd.choice([0.5, 0.34, 0.67])
+    mp = req['methodParameters']
+    for k in ('drawResolution', 'electreDistillation', 'randomSeed', 'randomAlternativesOrdering'):
+        mp.pop(k, None)
+    return req
+
+
 def history_runs(ctx, nh, modes=('shared', 'fresh'), allc=None, cur_in=None):
     """histories of 2-6 calls drawn from a pool of 1-3 requests (same-method parameter variants over-weighted): every answer must equal the
     answer of a process that has served nothing else; with mode 'shared' the same decoded Go values are reused across calls"""
@@ -1740,6 +1905,17 @@ def history_runs(ctx, nh, modes=('shared', 'fresh'), allc=None, cur_in=None):
             order = list(pool)
             rnd.shuffle(order)
             seq = order + order[::-1]
+        if hi == nfix or hi == nfix + 1 or rnd.random() < 0.2:
+            # rejected requests in between (unknown names make the service consult - and print - its registries): requests that rely on
+            # the documented defaults of every optional parameter are answered the same before and after them
+            pool = [defaults_request(rnd, first=rnd.choice(['criteriaOmission', 'preferenceReversal'])), defaults_request(rnd)]
+            bad = []
+            for r in pool:
+                bad += [x for n_, x in invalid_variants(rnd, r) if 'unknown' in n_ or 'mistyped' in n_]
+            rnd.shuffle(bad)
+            bad = bad[:rnd.randint(3, 6)] + [x for x in bad if any((b.get('props') or {}).get('ordering') for b in x.get('biases') or [] if isinstance(b, dict))][:3]
+            seq = pool + bad + pool[::-1]
+            pool = pool + bad
         alone = {}
         for r in pool:
             # the answer to the request alone: a process that has served nothing else
@@ -1890,6 +2066,13 @@ def c10(ctx):
                 # that use the same bias: what a rejected request leaves behind (a held lock, a half-built table) must not reach them
                 inv = invalid_variants(rnd, base[0])
                 base += [r for _, r in rnd.sample(inv, min(2, len(inv)))]
+                if rnd.random() < 0.7:
+                    # unknown names make the service consult (and print) its registries: next to them, requests relying on the defaults
+                    dq = [defaults_request(rnd, first=rnd.choice(['criteriaOmission', 'preferenceReversal'])), defaults_request(rnd)]
+                    unk = [r for q in dq for n_, r in invalid_variants(rnd, q) if 'unknown' in n_]
+                    rnd.shuffle(unk)
+                    base += dq + unk[:4] + [x for x in unk if any((b.get('props') or {}).get('ordering') for b in x.get('biases') or []
+                                                                  if isinstance(b, dict))][:3]
                 if rnd.random() < 0.6:
                     bn = rnd.choice(['anchoring', 'anchoring', 'fatigue', 'criteriaOmission', 'criteriaConcealment'])
                     ok_b = gen.biased_request(rnd, names=[bn], prob_mix=False)
@@ -2030,6 +2213,14 @@ def invalid_variants(rnd, req, mistyped=True):
     with_bias('omission ratio below 0', {'name': 'criteriaOmission', 'props': {'ratio': -0.1}})
     with_bias('omission max below min', {'name': 'criteriaOmission', 'props': {'ratio': 0.5, 'min': 2, 'max': 1}})
     with_bias('unknown ordering', {'name': 'preferenceReversal', 'props': {'ratio': 0.5, 'ordering': 'noSuchOrdering'}})
+    # near misses of real names (wrong case, truncated, misspelt): as unknown as any other name
+    with_bias('unknown ordering (near miss)', {'name': rnd.choice(['preferenceReversal', 'criteriaOmission']),
+                                               'props': {'ratio': 0.5, 'ordering': rnd.choice(['Strongest', 'strongestByProb', 'Random', 'RANDOM',
+                                                                                               'weakestByProbabilty', 'strongest ', 'Weakest'])}})
+    with_bias('unknown fatigue function (near miss)', {'name': 'fatigue', 'props': {'function': rnd.choice(['Const', 'expFromZer', 'exp']), 'params': {'value': 0.1}}})
+    with_bias('unknown reference criterion type (near miss)', {'name': 'criteriaConcealment', 'props': {'referenceCriterionType': rnd.choice(['ImportanceRatio', 'randomuniform', 'random'])}})
+    mod('unknown method (near miss)', lambda r: r.update(preferenceFunction=rnd.choice(['WeightedSum', 'OWA', 'electreIII ', 'choquet', 'majority'])))
+    mod('unknown bias name (near miss)', lambda r: r['biases'].append({'name': rnd.choice(['Fatigue', 'anchor', 'criteriaomission']), 'props': {}}))
     with_bias('unknown fatigue function', {'name': 'fatigue', 'props': {'function': 'noSuchFunction', 'params': {}}})
     with_bias('fatigue bounding scaling 0', {'name': 'fatigue', 'props': {'function': 'const', 'params': {'value': 0.1}, 'allowedValuesRangeScaling': 0}})
     with_bias('concealment scaling 0', {'name': 'criteriaConcealment', 'props': {'newCriterionScaling': 0}})
@@ -2181,6 +2372,10 @@ def c20(ctx):
         n = n_cases(ctx, 12, 300)
         for i in range(n):
             req = rnd.choice([gen.any_request, gen.biased_request])(rnd)
+            if i % 3 == 2:
+                # a method whose listener extends its parameters for an added criterion (Choquet over-weighted): answered again below
+                req = gen.biased_request(rnd, method=rnd.choice(['choquetIntegral', 'choquetIntegral', 'choquetIntegral', 'electreIII', 'owa']),
+                                         names=[rnd.choice(['criteriaConcealment', 'criteriaMixing', 'criteriaConcealment'])], prob_mix=False)
             if ctx.replay and 'request' in ctx.replay:
                 req = ctx.replay['request']
             m = req['preferenceFunction']
@@ -2197,8 +2392,8 @@ def c20(ctx):
                 ctx.signatures.add(('invalid', name, m, st2))
                 ctx.count('constraint/' + name)
                 # (only when the request itself is accepted: otherwise it may be rejected for its own reason first)
-                if st == 200 and st2 == 400 and isinstance(j2, dict) and name in ('unknown method', 'unknown bias name'):
-                    known = gen.METHODS if name == 'unknown method' else gen.BIASES
+                if st == 200 and st2 == 400 and isinstance(j2, dict) and name.startswith(('unknown method', 'unknown bias name')):
+                    known = gen.METHODS if name.startswith('unknown method') else gen.BIASES
                     if not all(k in j2.get('error', '') for k in known):
                         ctx.violation('the error for an %s does not list the available names' % name, {'request': r, 'answer': j2}, {'what': name})
             # the valid request once more, after its rejected variants: answered, and with the same verdict and body as before
